@@ -5,7 +5,7 @@ from .. import boot, gen, run, diff, staticrun
 from . import static_common
 
 EXCLUDED = {"const_cond"}
-FEATURES = gen.ALL_FEATURES - EXCLUDED
+FEATURES = gen.STATIC_FEATURES - EXCLUDED
 
 
 def meta_issues(insn, pi, il):
